@@ -385,6 +385,18 @@ impl<'a> VisitMut for Rules<'a> {
                 self.ctx.used("R40");
             }
         }
+        // R18 on a match arm whose body is a bare call of a listed free function: the body becomes a block so that the arguments can be named
+        if self.ctx.on("R18") {
+            let inner: Option<&syn::ExprCall> = match &*a.body { syn::Expr::Call(c) => Some(c), syn::Expr::Try(t) => match &*t.expr { syn::Expr::Call(c) => Some(c), _ => None }, _ => None };
+            if let Some(c) = inner {
+                let fname = match &*c.func { syn::Expr::Path(p) => p.path.segments.last().map(|s| s.ident.to_string()), _ => None };
+                let listed = fname.map(|n| self.ctx.opts["anf_calls"].as_array().map(|l| l.iter().any(|v| v.as_str() == Some(&n))).unwrap_or(false)).unwrap_or(false);
+                if listed {
+                    let body = (*a.body).clone();
+                    a.body = Box::new(syn::parse_quote!({ #body }));
+                }
+            }
+        }
         syn::visit_mut::visit_arm_mut(self, a);
     }
 
@@ -411,6 +423,53 @@ impl<'a> VisitMut for Rules<'a> {
                     }
                 }
                 if !done { out.push(st); }
+            }
+            b.stmts = out;
+        }
+        if self.ctx.on("R50") {
+            // R50: `let Some(P) = A.iter().map(|x| F).collect::<Option<Vec<_>>>() else { ELSE };` (collect into an Option: elements in order,
+            // None at the first None) -> push loop; at the first None the (diverging) ELSE block runs, otherwise P is the vector of payloads
+            let mut out: Vec<syn::Stmt> = Vec::with_capacity(b.stmts.len());
+            for st in b.stmts.drain(..) {
+                let mut rep: Option<Vec<syn::Stmt>> = None;
+                if let syn::Stmt::Local(l) = &st {
+                    if let (syn::Pat::TupleStruct(ts), Some(init)) = (&l.pat, &l.init) {
+                        if ts.path.is_ident("Some") && ts.elems.len() == 1 {
+                            if let (Some((_, els)), syn::Expr::MethodCall(col)) = (&init.diverge, &*init.expr) {
+                                let tf_ok = col.turbofish.as_ref().map(|t| norm(&t.args.to_token_stream().to_string()).starts_with("Option<Vec<")).unwrap_or(false);
+                                if col.method == "collect" && tf_ok {
+                                    if let syn::Expr::MethodCall(map) = &*col.receiver {
+                                        if map.method == "map" && map.args.len() == 1 {
+                                            if let (syn::Expr::Closure(cl), syn::Expr::MethodCall(it)) = (&map.args[0], &*map.receiver) {
+                                                if it.method == "iter" && it.args.is_empty() && cl.inputs.len() == 1 {
+                                                    let a = &it.receiver;
+                                                    let pat = match &cl.inputs[0] { syn::Pat::Type(pt) => (*pt.pat).clone(), p => p.clone() };
+                                                    let body = &cl.body;
+                                                    let k = self.ctx.fresh();
+                                                    let oc = syn::Ident::new(&format!("vx_oc{}", k), proc_macro2::Span::call_site());
+                                                    let nn = syn::Ident::new(&format!("vx_n{}", k), proc_macro2::Span::call_site());
+                                                    let ii = syn::Ident::new(&format!("vx_i{}", k), proc_macro2::Span::call_site());
+                                                    let target = &ts.elems[0];
+                                                    rep = Some(vec![
+                                                        syn::parse_quote!(let mut #oc = Vec::new();),
+                                                        syn::parse_quote!(let #nn = #a.len();),
+                                                        syn::Stmt::Expr(syn::parse_quote!(for #ii in 0..#nn {
+                                                            let #pat = &#a[#ii];
+                                                            match #body { Some(vx_oc_v) => { #oc.push(vx_oc_v); } None => #els }
+                                                        }), None),
+                                                        syn::parse_quote!(let #target = #oc;),
+                                                    ]);
+                                                    self.ctx.used("R50");
+                                                }
+                                            }
+                                        }
+                                    }
+                                }
+                            }
+                        }
+                    }
+                }
+                match rep { Some(v) => out.extend(v), None => out.push(st) }
             }
             b.stmts = out;
         }
@@ -550,11 +609,13 @@ impl<'a> VisitMut for Rules<'a> {
             while i < b.stmts.len() {
                 let mut hoist: Vec<(syn::Ident, syn::Expr)> = vec![];
                 let target: Option<&mut syn::ExprMethodCall> = match &mut b.stmts[i] {
-                    syn::Stmt::Expr(syn::Expr::MethodCall(mc), Some(_)) => Some(mc),
-                    syn::Stmt::Expr(syn::Expr::Try(t), Some(_)) => match &mut *t.expr { syn::Expr::MethodCall(mc) => Some(mc), _ => None },
+                    syn::Stmt::Expr(syn::Expr::MethodCall(mc), _) => Some(mc),
+                    syn::Stmt::Expr(syn::Expr::Try(t), _) => match &mut *t.expr { syn::Expr::MethodCall(mc) => Some(mc), _ => None },
                     _ => None,
                 };
+                let mut method_done = false;
                 if let Some(mc) = target {
+                    method_done = true;
                     let listed = self.ctx.opts["anf_calls"].as_array().map(|a| a.iter().any(|v| v.as_str() == Some(&mc.method.to_string()))).unwrap_or(false);
                     if listed {
                         for a in mc.args.iter_mut() {
@@ -564,6 +625,31 @@ impl<'a> VisitMut for Rules<'a> {
                             let arg = a.clone();
                             *a = syn::parse_quote!(#id);
                             hoist.push((id, arg));
+                        }
+                    }
+                }
+                if !method_done {
+                    // the same for calls of listed FREE functions: `f(ARGS)`, `f(ARGS)?`, with or without `;`, or as the initialiser of a `let`
+                    fn call_of(e: &mut syn::Expr) -> Option<&mut syn::ExprCall> {
+                        match e { syn::Expr::Call(c) => Some(c), syn::Expr::Try(t) => match &mut *t.expr { syn::Expr::Call(c) => Some(c), _ => None }, _ => None }
+                    }
+                    let call: Option<&mut syn::ExprCall> = match &mut b.stmts[i] {
+                        syn::Stmt::Expr(e, _) => call_of(e),
+                        syn::Stmt::Local(l) => match &mut l.init { Some(init) if init.diverge.is_none() => call_of(&mut init.expr), _ => None },
+                        _ => None,
+                    };
+                    if let Some(c) = call {
+                        let fname = match &*c.func { syn::Expr::Path(p) => p.path.segments.last().map(|s| s.ident.to_string()), _ => None };
+                        let listed = fname.map(|n| self.ctx.opts["anf_calls"].as_array().map(|a| a.iter().any(|v| v.as_str() == Some(&n))).unwrap_or(false)).unwrap_or(false);
+                        if listed {
+                            for a in c.args.iter_mut() {
+                                if matches!(a, syn::Expr::Path(_)) { continue; }
+                                let k = self.ctx.fresh();
+                                let id = syn::Ident::new(&format!("vx_a{}", k), proc_macro2::Span::call_site());
+                                let arg = a.clone();
+                                *a = syn::parse_quote!(#id);
+                                hoist.push((id, arg));
+                            }
                         }
                     }
                 }
@@ -874,6 +960,41 @@ impl<'a> VisitMut for Rules<'a> {
             }
         }
         // R22: `A.iter()[.zip(B)].map(|pat| BODY).collect()`  ->  index loop pushing BODY into a fresh Vec
+        if self.ctx.on("R47") {
+            // R47: `X.get(K).map(|v| F)` -> `match X.get(K) { Some(v) => Some(F), None => None }` (definition of Option::map; applied only to the
+            // Option returned by a `get` / `first` / `last` call, so that the verifier sees F instead of an uninterpreted closure result)
+            if let syn::Expr::MethodCall(mp) = e {
+                if mp.method == "map" && mp.args.len() == 1 {
+                    // the same for the Option returned by a free function listed in opts.option_fns
+                    if let (syn::Expr::Closure(cl), syn::Expr::Call(g)) = (&mp.args[0], &*mp.receiver) {
+                        let fname = match &*g.func { syn::Expr::Path(p) => p.path.segments.last().map(|s| s.ident.to_string()), _ => None };
+                        let listed = fname.map(|n| self.ctx.opts["option_fns"].as_array().map(|l| l.iter().any(|v| v.as_str() == Some(&n))).unwrap_or(false)).unwrap_or(false);
+                        if listed && cl.inputs.len() == 1 {
+                            let pat = match &cl.inputs[0] { syn::Pat::Type(pt) => (*pt.pat).clone(), p => p.clone() };
+                            let body = &cl.body;
+                            let recv = &mp.receiver;
+                            let new: syn::Expr = syn::parse_quote!(match #recv { Some(#pat) => Some(#body), None => None });
+                            *e = new;
+                            self.ctx.used("R47");
+                            syn::visit_mut::visit_expr_mut(self, e);
+                            return;
+                        }
+                    }
+                    if let (syn::Expr::Closure(cl), syn::Expr::MethodCall(g)) = (&mp.args[0], &*mp.receiver) {
+                        if cl.inputs.len() == 1 && (g.method == "get" || g.method == "first" || g.method == "last") {
+                            let pat = match &cl.inputs[0] { syn::Pat::Type(pt) => (*pt.pat).clone(), p => p.clone() };
+                            let body = &cl.body;
+                            let recv = &mp.receiver;
+                            let new: syn::Expr = syn::parse_quote!(match #recv { Some(#pat) => Some(#body), None => None });
+                            *e = new;
+                            self.ctx.used("R47");
+                            syn::visit_mut::visit_expr_mut(self, e);
+                            return;
+                        }
+                    }
+                }
+            }
+        }
         if self.ctx.on("R46") {
             // R46: `A.iter().zip(B).map(|(a, b)| F).sum::<f64>()` -> index loop over the shorter of the two adding F to an accumulator that
             // starts at 0.0 (std definitions of zip / map / Sum for f64; the sign of an empty sum's zero is not modelled)
